@@ -128,9 +128,22 @@ func (x *XmlNode) ContentTrim() string {
 
 func (x *XmlNode) field(m meta.Leafable) (string, bool) {
 	if ndx := x.Find(0, m); ndx >= 0 {
-		return x.Nodes[ndx].ContentTrim(), true
+		return x.Nodes[ndx].leafContent(m), true
 	}
 	return "", false
+}
+
+// leafContent is the text of a leaf element. White space is part of a string value
+// and insignificant for everything else.
+func (x *XmlNode) leafContent(m meta.Leafable) string {
+	t := m.Type()
+	if t != nil && t.Format().Single() == val.FmtLeafRef {
+		t = t.Resolve()
+	}
+	if t != nil && t.Format().Single() == val.FmtString {
+		return string(x.Content)
+	}
+	return x.ContentTrim()
 }
 
 func (x *XmlNode) Field(r node.FieldRequest, hnd *node.ValueHandle) error {
@@ -145,12 +158,12 @@ func (x *XmlNode) Field(r node.FieldRequest, hnd *node.ValueHandle) error {
 		// The XML elements representing list entries MAY be interleaved with elements
 		// for siblings of the list
 		for ndx >= 0 {
-			found = append(found, x.Nodes[ndx].ContentTrim())
+			found = append(found, x.Nodes[ndx].leafContent(r.Meta))
 			ndx = x.Find(ndx+1, r.Meta)
 		}
 		hnd.Val, err = node.NewValue(r.Meta.Type(), found)
 	} else {
-		hnd.Val, err = node.NewValue(r.Meta.Type(), x.Nodes[ndx].ContentTrim())
+		hnd.Val, err = node.NewValue(r.Meta.Type(), x.Nodes[ndx].leafContent(r.Meta))
 	}
 	return err
 }
